@@ -59,7 +59,7 @@ sh("mkdir -p %s && rsync -a --delete --exclude .git --exclude replays --exclude 
 os.makedirs(copy + "/replays", exist_ok=True); os.makedirs(copy + "/evidence", exist_ok=True)
 sh("git checkout -q -- . && git apply %s" % patch, cwd=wt)
 t = time.time()
-rc, out = sh("python3 tools/check.py %s --tier quick" % prop, cwd=copy, env={"VERIF_REPO": wt}, timeout=7200)
+rc, out = sh("python3 tools/check.py %s --tier quick" % prop, cwd=copy, env={"VERIF_REPO": wt, "VERIF_BUILD_TAG": "seed_" + prop.lower()}, timeout=10800)
 res["check_exit"] = rc
 res["check_wall_s"] = round(time.time() - t)
 res["violation_lines"] = [l for l in out.split("\n") if l.startswith("VIOLATION") or l.startswith("KNOWN-FINDING")][:12]
